@@ -282,7 +282,7 @@ Proof.
   - apply SubCase. apply Sub_delete.
   - apply SubCase. eapply Sub_trans; [apply Sub_delete|]. now apply Sub_same_links.
   - destruct (_ && _); [|exact W]. apply OptCase. intros s' E. eapply Sub_rename_tx7; eauto.
-  - apply OptCase. intros s' E. eapply Sub_trans; [apply Sub_set_next|eapply Sub_reparent; eauto].
+  - apply OptCase. intros s' E. unfold reparent_max in E. eapply Sub_trans; [apply Sub_set_next|eapply Sub_reparent; eauto].
   - destruct (existsb _ _); [exact W|]. destruct W. constructor; auto.
   - destruct W. constructor; auto.
 Qed.
